@@ -19,7 +19,8 @@ func init() {
 			"(S) shape of the selection function: it calls only strings.HasPrefix, len and fmt.Errorf, reads no package variable and ranges only over slices (determinism); a candidate replaces the current best only if HasPrefix(path, p) holds for the range element p of the current backend's prefixes, and only when there is no best yet or len(p) > len(best prefix) (truth table on the two lengths); the recorded ID and prefix belong to the same backend / the same p; the error return is exactly the no-match case; " +
 			"(C) routing goes straight to the persistent store: the caching store delegates LookupBackend purely and keeps no state. " +
 			"Both loops of the selection (backends × prefixes) are left only when their range is exhausted. " +
-			"The store call that records liveness runs under the handler's context or the long-poll window derived from it once, outside the loop.",
+			"The store call that records liveness runs under the handler's context or the long-poll window derived from it once, outside the loop. " +
+			"(N, second part) the lookup is keyed by the decoded r.URL.Path; (L, second part) every successful registerBackendAsSeen has written the tracker with time.Now().",
 		Assumptions: []string{"datastore queries return the registered backends", "time.Since is monotone"},
 		Run:         runC18,
 	})
@@ -27,9 +28,9 @@ func init() {
 
 func runC18(c *Ctx) {
 	p := c.Progs["mod"]
-	c.Rule("C18.L", "liveness gate", 8)
+	c.Rule("C18.L", "liveness gate", 9)
 	c.Rule("C18.F", "shared fallback only when the user has no match", 3)
-	c.Rule("C18.N", "404 when the lookup fails", 1)
+	c.Rule("C18.N", "lookup by the request path; 404 when it fails", 2)
 	c.Rule("C18.S", "shape of the most-specific-prefix selection", 7)
 	c.Rule("C18.C", "no cache or memo in front of the routing decision", 2)
 	const sp = ModPath + "/app/store"
@@ -164,6 +165,30 @@ func runC18(c *Ctx) {
 			k, _ := ConstString(a[1])
 			c.Check("C18.L", "registerBackendAsSeen:same-tracker-key", p, nk.Pos(), k == "backendTracker" && PathOf(a[2]) == P(f, 2), "the agent's poll refreshes the same tracker entity the liveness test reads", "registerBackendAsSeen writes a different entity than backendLastSeen reads")
 		}
+		// every successful call wrote the tracker with the current time
+		isPut := func(i ssa.Instruction) bool {
+			cc := CallOf(i)
+			return cc != nil && CalleeName(cc) == "google.golang.org/appengine/v2/datastore.Put"
+		}
+		if len(f.Blocks) > 0 {
+			hit, _ := (&Walk{Target: func(i ssa.Instruction) bool {
+				r, isR := i.(*ssa.Return)
+				return isR && r.Parent() == f && IsNilConst(ReturnValue(r, 0))
+			}, Avoid: isPut}).FromBlock(f.Blocks[0])
+			where := ""
+			if hit != nil {
+				where = p.Pos(hit.Pos())
+			}
+			okNow := false
+			if put := c.UniqueCall("C18.L", p, f, false, "google.golang.org/appengine/v2/datastore.Put"); put != nil {
+				for _, r := range Roots(CallOf(put).Args[2]) {
+					if v, has := LiteralField(r, "LastSeen"); has && CallResult(v, 0, "time.Now") != nil {
+						okNow = true
+					}
+				}
+			}
+			c.Check("C18.L", "registerBackendAsSeen:every-success-wrote-now", p, f.Pos(), hit == nil && okNow, "a nil return is only reached through datastore.Put of a tracker whose LastSeen is time.Now()", "registerBackendAsSeen can report success without writing the tracker ("+where+") or writes a time other than time.Now(): a polling agent is not recorded as seen (e.g. a per-instance memo that skips the write goes stale when AddBackend/DeleteBackend rewrite the tracker), and its users get 404 inside the liveness window")
+		}
 	}
 
 	// ---- C18.F
@@ -202,6 +227,7 @@ func runC18(c *Ctx) {
 				h2, _ := (&Walk{Target: func(i ssa.Instruction) bool { return isStoreCall(i) || isAppHelperCall(i) }}).FromBlock(ifi.Block().Succs[fail])
 				ok = h1 == nil && h2 == nil
 			}
+			c.ArgIs("C18.N", "proxy:lookup-by-decoded-request-path", p, lb, 3, "the backend is chosen by r.URL.Path, the decoded path the registered prefixes are written in", P(f, 4)+".URL.Path")
 			c.Check("C18.N", "proxy:no-backend-404", p, lb.Pos(), ok, "a failed lookup is answered 404 on every path, before any store access", "a failed backend lookup is not answered with 404 (or the store is touched first)")
 		}
 	}
